@@ -1,13 +1,241 @@
 /- Proofs/Id3Spec.lean — lemmas for C12: validity predicates and one read/write round-trip
-lemma per spec kind of Model/Id3Spec.lean, then the frame-level induction. -/
+lemma per spec kind of Model/Id3Spec.lean, then the frame-level induction; first the round
+trips of the text codecs of Model/Id3Text.lean. -/
 import MutagenModel.Model.Id3Spec
-import MutagenModel.Proofs.Id3Text
 import MutagenModel.Proofs.IntCodec
 import MutagenModel.Props.C14
 set_option linter.unusedVariables false
 set_option linter.unusedSimpArgs false
 namespace Mutagen.Id3
 open Mutagen
+
+/-! ## text codecs (Model/Id3Text.lean) -/
+
+theorem toNat_b8 (n : Nat) (h : n < 256) : (b8 n).toNat = n := by
+  simp [b8, UInt8.toNat_ofNat', Nat.mod_eq_of_lt h]
+
+theorem b8_toNat (x : UInt8) : b8 x.toNat = x := by
+  simp [b8]
+
+theorem b8_ne_zero (n : Nat) (h : n < 256) (h0 : n ≠ 0) : b8 n ≠ 0 := by
+  intro e
+  have := congrArg UInt8.toNat e
+  rw [toNat_b8 n h] at this
+  simp at this
+  exact h0 this
+
+theorem isScalar_iff (c : Nat) : isScalar c = true ↔ c < 0x110000 ∧ ¬ (0xD800 ≤ c ∧ c < 0xE000) := by
+  simp [isScalar]; omega
+
+/-! ### Latin-1 -/
+
+theorem map_toNat_b8 (t : Text) (h : ∀ x ∈ t, x < 256) : (t.map b8).map UInt8.toNat = t := by
+  induction t with
+  | nil => rfl
+  | cons x r ih =>
+    simp only [List.map_cons, List.cons.injEq]
+    exact ⟨toNat_b8 x (h x (by simp)), ih (fun y hy => h y (by simp [hy]))⟩
+
+theorem latin1Encode_ok (t : Text) (h : ∀ x ∈ t, x < 256) : latin1Encode t = .ok (t.map b8) := by
+  have : t.all (fun c => decide (c < 256)) = true := by simpa [List.all_eq_true] using h
+  simp [latin1Encode, this]
+
+theorem latin1Decode_map (t : Text) (h : ∀ x ∈ t, x < 256) : latin1Decode (t.map b8) = t := by
+  simp [latin1Decode, map_toNat_b8 t h]
+
+/-! ### UTF-8 -/
+
+theorem utf8Decode_enc1 (c : Nat) (hc : isScalar c = true) (rest : Bytes) :
+    utf8Decode (utf8Enc1 c ++ rest) = consOk c (utf8Decode rest) := by
+  obtain ⟨h1, h2⟩ := (isScalar_iff c).mp hc
+  unfold utf8Enc1
+  split
+  · rename_i h
+    rw [List.singleton_append, utf8Decode.eq_def]
+    simp [toNat_b8 c (by omega), h]
+  · split
+    · rename_i h0 h
+      have e1 := toNat_b8 (0xC0 + c / 64) (by omega)
+      have e2 := toNat_b8 (0x80 + c % 64) (by omega)
+      simp only [List.cons_append, List.nil_append, utf8Decode, isCont, e1, e2]
+      have : ¬ (0xC0 + c / 64 < 0x80) := by omega
+      have : ¬ (0xC0 + c / 64 < 0xC2) := by omega
+      have : (0xC0 + c / 64 < 0xE0) := by omega
+      have hv : c / 64 * 64 + c % 64 = c := by omega
+      have g1 : 0x80 ≤ 0x80 + c % 64 := by omega
+      have g2 : 0x80 + c % 64 < 0xC0 := by omega
+      simp [*]
+    · split
+      · rename_i h0 h00 h
+        have e1 := toNat_b8 (0xE0 + c / 4096) (by omega)
+        have e2 := toNat_b8 (0x80 + c / 64 % 64) (by omega)
+        have e3 := toNat_b8 (0x80 + c % 64) (by omega)
+        simp only [List.cons_append, List.nil_append, utf8Decode, isCont, e1, e2, e3]
+        have : ¬ (0xE0 + c / 4096 < 0x80) := by omega
+        have : ¬ (0xE0 + c / 4096 < 0xC2) := by omega
+        have : ¬ (0xE0 + c / 4096 < 0xE0) := by omega
+        have : (0xE0 + c / 4096 < 0xF0) := by omega
+        have hv : c / 4096 * 4096 + c / 64 % 64 * 64 + c % 64 = c := by omega
+        have g1 : 0x80 ≤ 0x80 + c / 64 % 64 := by omega
+        have g2 : 0x80 + c / 64 % 64 < 0xC0 := by omega
+        have g3 : 0x80 ≤ 0x80 + c % 64 := by omega
+        have g4 : 0x80 + c % 64 < 0xC0 := by omega
+        have g5 : ¬ (c < 0x800 ∨ (0xD800 ≤ c ∧ c < 0xE000)) := by omega
+        simp [*]
+      · rename_i h0 h00 h
+        have e1 := toNat_b8 (0xF0 + c / 262144) (by omega)
+        have e2 := toNat_b8 (0x80 + c / 4096 % 64) (by omega)
+        have e3 := toNat_b8 (0x80 + c / 64 % 64) (by omega)
+        have e4 := toNat_b8 (0x80 + c % 64) (by omega)
+        simp only [List.cons_append, List.nil_append, utf8Decode, isCont, e1, e2, e3, e4]
+        have : ¬ (0xF0 + c / 262144 < 0x80) := by omega
+        have : ¬ (0xF0 + c / 262144 < 0xC2) := by omega
+        have : ¬ (0xF0 + c / 262144 < 0xE0) := by omega
+        have : ¬ (0xF0 + c / 262144 < 0xF0) := by omega
+        have : (0xF0 + c / 262144 < 0xF5) := by omega
+        have hv : c / 262144 * 262144 + c / 4096 % 64 * 4096 + c / 64 % 64 * 64 + c % 64 = c := by omega
+        have g1 : 0x80 ≤ 0x80 + c / 4096 % 64 := by omega
+        have g2 : 0x80 + c / 4096 % 64 < 0xC0 := by omega
+        have g3 : 0x80 ≤ 0x80 + c / 64 % 64 := by omega
+        have g4 : 0x80 + c / 64 % 64 < 0xC0 := by omega
+        have g5 : 0x80 ≤ 0x80 + c % 64 := by omega
+        have g6 : 0x80 + c % 64 < 0xC0 := by omega
+        have g7 : ¬ (c < 0x10000 ∨ c ≥ 0x110000) := by omega
+        have g8 : ¬ (1114112 ≤ c) := by omega
+        simp [*]
+
+theorem utf8Decode_encodeRaw (t : Text) (h : ∀ x ∈ t, isScalar x = true) :
+    utf8Decode (utf8EncodeRaw t) = .ok t := by
+  induction t with
+  | nil => simp [utf8EncodeRaw, utf8Decode]
+  | cons c r ih =>
+    simp only [utf8EncodeRaw]
+    rw [utf8Decode_enc1 c (h c (by simp)), ih (fun y hy => h y (by simp [hy]))]
+    rfl
+
+theorem utf8Encode_ok (t : Text) (h : ∀ x ∈ t, isScalar x = true) : utf8Encode t = .ok (utf8EncodeRaw t) := by
+  have : t.all isScalar = true := by simpa [List.all_eq_true] using h
+  simp [utf8Encode, this]
+
+theorem utf8Enc1_ne_zero (c : Nat) (hs : isScalar c = true) (h0 : c ≠ 0) : ∀ x ∈ utf8Enc1 c, x ≠ 0 := by
+  obtain ⟨h1, h2⟩ := (isScalar_iff c).mp hs
+  intro x hx
+  unfold utf8Enc1 at hx
+  split at hx
+  · simp at hx; subst hx; exact b8_ne_zero c (by omega) h0
+  · split at hx
+    · simp at hx
+      rcases hx with rfl | rfl <;> exact b8_ne_zero _ (by omega) (by omega)
+    · split at hx
+      · simp at hx
+        rcases hx with rfl | rfl | rfl <;> exact b8_ne_zero _ (by omega) (by omega)
+      · simp at hx
+        rcases hx with rfl | rfl | rfl | rfl <;> exact b8_ne_zero _ (by omega) (by omega)
+
+theorem utf8EncodeRaw_ne_zero (t : Text) (h : ∀ x ∈ t, isScalar x = true ∧ x ≠ 0) :
+    ∀ x ∈ utf8EncodeRaw t, x ≠ 0 := by
+  induction t with
+  | nil => simp [utf8EncodeRaw]
+  | cons c r ih =>
+    intro x hx
+    simp only [utf8EncodeRaw, List.mem_append] at hx
+    rcases hx with hx | hx
+    · exact utf8Enc1_ne_zero c (h c (by simp)).1 (h c (by simp)).2 x hx
+    · exact ih (fun y hy => h y (by simp [hy])) x hx
+
+/-! ### UTF-16 -/
+
+theorem unitOf_unitBytes (be : Bool) (u : Nat) (h : u < 65536) (rest : Bytes) :
+    ∃ a b, unitBytes be u ++ rest = a :: b :: rest ∧ unitOf be a b = u := by
+  have e1 := toNat_b8 (u / 256) (by omega)
+  have e2 := toNat_b8 (u % 256) (by omega)
+  cases be
+  · refine ⟨b8 (u % 256), b8 (u / 256), by simp [unitBytes], ?_⟩
+    simp [unitOf, e1, e2]; omega
+  · refine ⟨b8 (u / 256), b8 (u % 256), by simp [unitBytes], ?_⟩
+    simp [unitOf, e1, e2]; omega
+
+/-- one scalar value other than U+0000, encoded, is scanned back -/
+theorem utf16Scan_units (be : Bool) (c : Nat) (hs : isScalar c = true) (h0 : c ≠ 0) (rest : Bytes) :
+    utf16Scan be (unitsBytes be (utf16Units c) ++ rest) = consScan c (utf16Scan be rest) := by
+  obtain ⟨h1, h2⟩ := (isScalar_iff c).mp hs
+  unfold utf16Units
+  split
+  · rename_i hlt
+    obtain ⟨a, b, hab, hu⟩ := unitOf_unitBytes be c (by omega) rest
+    simp only [unitsBytes, List.append_nil]
+    rw [hab]
+    have nh : isHigh c = false := by simp [isHigh]; omega
+    have nl : isLow c = false := by simp [isLow]; omega
+    rw [utf16Scan.eq_def]
+    simp [hu, h0, nh, nl]
+  · rename_i hge
+    have hhi : 0xD800 + (c - 0x10000) / 0x400 < 65536 := by omega
+    have hlo : 0xDC00 + (c - 0x10000) % 0x400 < 65536 := by omega
+    obtain ⟨c', d', hcd, hu2⟩ := unitOf_unitBytes be (0xDC00 + (c - 0x10000) % 0x400) hlo rest
+    obtain ⟨a, b, hab, hu⟩ := unitOf_unitBytes be (0xD800 + (c - 0x10000) / 0x400) hhi (c' :: d' :: rest)
+    simp only [unitsBytes, List.append_nil, List.append_assoc]
+    rw [hcd, hab]
+    have n0 : ¬ (0xD800 + (c - 0x10000) / 0x400 = 0) := by omega
+    have ih : isHigh (0xD800 + (c - 0x10000) / 0x400) = true := by simp [isHigh]; omega
+    have il : isLow (0xDC00 + (c - 0x10000) % 0x400) = true := by simp [isLow]; omega
+    have hv : 65536 + (c - 65536) / 1024 * 1024 + (c - 65536) % 1024 = c := by omega
+    rw [utf16Scan.eq_def]
+    simp [hu, hu2, ih, il, hv]
+
+/-- NUL-free text, encoded and followed by the two-byte terminator, is scanned back with the
+rest left over -/
+theorem utf16Scan_encodeRaw_term (be : Bool) (t : Text) (h : ∀ x ∈ t, isScalar x = true ∧ x ≠ 0)
+    (rest : Bytes) :
+    utf16Scan be (utf16EncodeRaw be t ++ 0 :: 0 :: rest) = .ok (t, some rest) := by
+  induction t with
+  | nil =>
+    simp only [utf16EncodeRaw, List.nil_append]
+    rw [utf16Scan.eq_def]
+    cases be <;> simp [unitOf]
+  | cons c r ih =>
+    simp only [utf16EncodeRaw, List.append_assoc]
+    rw [utf16Scan_units be c (h c (by simp)).1 (h c (by simp)).2, ih (fun y hy => h y (by simp [hy]))]
+    rfl
+
+/-- … and without a terminator the whole text comes back (`strict=False` path) -/
+theorem utf16Scan_encodeRaw (be : Bool) (t : Text) (h : ∀ x ∈ t, isScalar x = true ∧ x ≠ 0) :
+    utf16Scan be (utf16EncodeRaw be t) = .ok (t, none) := by
+  induction t with
+  | nil => simp [utf16EncodeRaw, utf16Scan]
+  | cons c r ih =>
+    simp only [utf16EncodeRaw]
+    have := utf16Scan_units be c (h c (by simp)).1 (h c (by simp)).2 (utf16EncodeRaw be r)
+    rw [this, ih (fun y hy => h y (by simp [hy]))]
+    rfl
+
+theorem utf16Encode_ok (be : Bool) (t : Text) (h : ∀ x ∈ t, isScalar x = true) :
+    utf16Encode be t = .ok (utf16EncodeRaw be t) := by
+  have : t.all isScalar = true := by simpa [List.all_eq_true] using h
+  simp [utf16Encode, this]
+
+/-! ### splitNul -/
+
+theorem splitNul_append (t rest : Bytes) (h : ∀ x ∈ t, x ≠ 0) : splitNul (t ++ 0 :: rest) = (t, some rest) := by
+  induction t with
+  | nil => simp [splitNul]
+  | cons x r ih =>
+    have hx : x ≠ 0 := h x (by simp)
+    have hr := ih (fun y hy => h y (by simp [hy]))
+    simp [splitNul, hx, hr]
+
+theorem splitNul_none (t : Bytes) (h : ∀ x ∈ t, x ≠ 0) : splitNul t = (t, none) := by
+  induction t with
+  | nil => simp [splitNul]
+  | cons x r ih =>
+    have hx : x ≠ 0 := h x (by simp)
+    have hr := ih (fun y hy => h y (by simp [hy]))
+    simp [splitNul, hx, hr]
+
+theorem map_b8_ne_zero (t : Text) (h : ∀ x ∈ t, x < 256 ∧ x ≠ 0) : ∀ y ∈ t.map b8, y ≠ 0 := by
+  intro y hy
+  obtain ⟨x, hx, rfl⟩ := List.mem_map.mp hy
+  exact b8_ne_zero x (h x hx).1 (h x hx).2
 
 /-! ## integers -/
 
@@ -742,7 +970,7 @@ def Valid (E : Env) (c : Ctx) (k : SpecKind) (v : Val) : Prop :=
   | .aspiIndex => ∃ (b : Int) (vs : List Nat), (b = 8 ∨ b = 16) ∧ c.aspiB = some b ∧
       c.aspiN = some (vs.length : Int) ∧ v = .list (vs.map natVal) ∧ vs ≠ [] ∧
       ∀ x ∈ vs, x < 256 ^ (if b = 16 then 2 else 1)
-  | .frames => ∃ fs b, v = .list fs ∧ E.subw E.cfg fs = .ok b ∧ E.sub E.h b = .ok (fs, [])
+  | .frames => ∃ fs b, v = .list fs ∧ E.subw E.cfg fs = .ok b ∧ E.sub { E.h with unsynch := false } b = .ok (fs, [])
   | .rva _ => False
 
 /-- what `read` returns for a written value: the value itself, except that a peak written
@@ -818,7 +1046,7 @@ theorem readSpec_syncText (enc : Nat) (vs : List Val) (hc : ctxEnc c = .ok enc) 
 theorem readSpec_keyEvent : readSpec sub h .keyEvent c d = .ok (.list (readKeyEvents d).1, (readKeyEvents d).2) := rfl
 theorem readSpec_volAdjs : readSpec sub h .volAdjs c d = .ok (readVolAdjs d) := rfl
 theorem readSpec_aspiIndex : readSpec sub h .aspiIndex c d = readAspi c d := rfl
-theorem readSpec_frames (fs : List Val) (r : Bytes) (hs : sub h d = .ok (fs, r)) :
+theorem readSpec_frames (fs : List Val) (r : Bytes) (hs : sub { h with unsynch := false } d = .ok (fs, r)) :
     readSpec sub h .frames c d = .ok (.list fs, r) := by simp only [readSpec, hs]
 end unfold
 
